@@ -30,7 +30,8 @@ def extract():
     need(re.search(r"for \(line_index, line_content\) in file_text\.split\('\\n'\)\.enumerate\(\) \{ let start_of_line = cur_index; cur_index \+= line_content\.len\(\) \+ 1; let end_of_line = cur_index;", fn),
          "line loop (split on '\\n', start_of_line / cur_index accumulation in bytes + 1)")
     need(re.search(r"let outer_span_start = outer_span\.map\(\|x\| x\.start\)\.unwrap_or\(0\); let actual_span = Span::new\( ?outer_span_start \+ inner_span\.start, outer_span_start \+ inner_span\.end,? ?\);", fn), "actual_span")
-    need(re.search(r"let line_len = line_content\.len\(\);", fn), "line_len")
+    m_ll = need(re.search(r"let line_len = line_content\.(len\(\)|chars\(\)\.count\(\));", fn), "line_len")
+    X["line_len"] = "bytes" if m_ll.group(1) == "len()" else "chars"
     need(re.search(r"let start_of_carats = \(actual_span\.start as usize\)\.saturating_sub\(start_of_line\);", fn), "start_of_carats")
     need(re.search(r"let end_of_carats = std::cmp::min\( ?\(actual_span\.end as usize\)\.saturating_sub\(start_of_line\), line_len,? ?\);", fn), "end_of_carats")
     need(re.search(r"let prefix = &line_content\[0\.\.start_of_carats\]; let highlighted = &line_content\[start_of_carats\.\.end_of_carats\]; let suffix = &line_content\[end_of_carats\.\.\];", fn), "prefix / highlighted / suffix slices")
@@ -90,13 +91,25 @@ def count_dom(unit, lo, hi, pos, n):
 
 
 def concrete_caret_line(X, widths, a, b):
+    """the caret line the extracted statements produce: a string, None when the guard suppresses it, 'PANIC' when a slice is cut inside a character"""
     pos = [sum(widths[:i]) for i in range(len(widths) + 1)]
-    val = {"0": 0, "S": pos[a], "E": pos[b], "L": pos[-1]}
+    Lb = pos[-1]
+    Lx = Lb if X.get("line_len", "bytes") == "bytes" else len(widths)
+    S_, E_ = pos[a], min(pos[b], Lx)
+    if E_ not in pos or S_ > E_:
+        return "PANIC"
+    if S_ == Lx or E_ == 0:
+        return None
+    val = {"0": 0, "S": S_, "E": E_, "L": Lx}
     out = ""
     for ch, unit, lo, hi in X["loops"]:
         lo_, hi_ = val[lo], val[hi]
-        k = (hi_ - lo_) if unit == "bytes" else sum(1 for i in range(len(widths)) if lo_ <= pos[i] < hi_)
-        out += ch * k
+        if unit == "bytes":
+            k = hi_ - lo_
+        else:
+            hi_real = Lb if hi == "L" else hi_       # the slices run over the real line, whatever line_len is
+            k = sum(1 for i in range(len(widths)) if lo_ <= pos[i] < hi_real)
+        out += ch * max(k, 0)
     return out
 
 
@@ -182,11 +195,20 @@ def main():
                 q.add(a >= 0, a < b, b <= n)
                 pos = [z3.Sum(w[:i]) if i else z3.IntVal(0) for i in range(n + 1)]
                 sel = lambda idx: z3.Sum([z3.If(idx == i, pos[i], 0) for i in range(n + 1)])
-                S, E, L = sel(a), sel(b), pos[n]
-                # start_of_line cancels: start_of_carats = (start_of_line + S).saturating_sub(start_of_line) = S; end_of_carats = min(E, L) = E
-                val = {"0": z3.IntVal(0), "S": S, "E": E, "L": L}
-                counts = [count_dom(unit, val[lo], val[hi], pos, n) for ch, unit, lo, hi in X["loops"]]
-                q.add(z3.Or(counts[0] != a, counts[1] != b - a, counts[2] != n - b))
+                S, Eb, Lb = sel(a), sel(b), pos[n]
+                Lx = Lb if X.get("line_len", "bytes") == "bytes" else z3.IntVal(n)
+                # start_of_line cancels: start_of_carats = (start_of_line + S).saturating_sub(start_of_line) = S; end_of_carats = min(E, line_len)
+                E = z3.If(Eb < Lx, Eb, Lx)
+                panics = z3.Or(z3.Not(z3.Or(*[E == pos[i] for i in range(n + 1)])), S > E)      # a slice boundary inside a character
+                guard_off = z3.Or(S == Lx, E == 0)                                               # no caret line at all
+                val = {"0": z3.IntVal(0), "S": S, "E": E, "L": Lx}
+                counts = []
+                for ch, unit, lo, hi in X["loops"]:
+                    if unit == "bytes":
+                        counts.append(val[hi] - val[lo])
+                    else:
+                        counts.append(count_dom("chars", val[lo], Lb if hi == "L" else val[hi], pos, n))
+                q.add(z3.Or(panics, guard_off, counts[0] != a, counts[1] != b - a, counts[2] != n - b))
                 r = q.check(cross_check=(n <= 2), cross_timeout_s=60)
                 queries.append(q.summary())
                 if r == "unsat":
